@@ -4,10 +4,11 @@
 package main
 
 import (
-	"time"
 	"fmt"
 	"net"
 	"net/netip"
+	"strconv"
+	"time"
 
 	"github.com/irai/packet"
 	"pvharness/lib"
@@ -44,7 +45,9 @@ func tf(b bool) string {
 func sendPaths(r *lib.Run, rng *lib.Rand, n int) {
 	s, conn := lib.NewSession()
 	s.NICInfo.IFI = &net.Interface{MTU: 1500, Name: "eth0"}
-	mac := func() net.HardwareAddr { return net.HardwareAddr{0x02, rng.Byte(), rng.Byte(), rng.Byte(), rng.Byte(), rng.Byte()} }
+	mac := func() net.HardwareAddr {
+		return net.HardwareAddr{0x02, rng.Byte(), rng.Byte(), rng.Byte(), rng.Byte(), rng.Byte()}
+	}
 	ip4 := func() netip.Addr { return netip.AddrFrom4([4]byte{rng.Byte(), rng.Byte(), rng.Byte(), rng.Byte()}) }
 	ip6 := func() netip.Addr {
 		var a [16]byte
@@ -145,13 +148,41 @@ func main() {
 
 	// cs <hex>: packet.Checksum
 	r.Register("cs", func(a []string) string {
-		b := lib.UnHex(a[0])
+		in := lib.UnHex(a[0])
+		// the input is a view into a larger array (as every packet view is): Checksum must read b[:len(b)] only
+		// and write nothing, neither into the view nor into the spare capacity behind it
+		back := make([]byte, len(in)+9)
+		for i := range back {
+			back[i] = 0xa5
+		}
+		copy(back, in)
+		b := back[:len(in)]
 		v := packet.Checksum(b)
+		for i := range back {
+			if (i < len(in) && back[i] != in[i]) || (i >= len(in) && back[i] != 0xa5) {
+				r.Viol("cs-writes-memory", fmt.Sprintf("Checksum wrote to its argument's array at index %d (len %d): %#02x", i, len(in), back[i]), "cs "+a[0])
+				break
+			}
+		}
 		want := rfc1071(b)
 		if v != (want>>8 | want<<8) { // Go-side oracle, independent of the Coq spec
 			r.Viol("cs-rfc1071", fmt.Sprintf("Checksum(%s)=%d, RFC1071 (byte-swapped)=%d", a[0], v, want>>8|want<<8), "cs "+a[0])
 		}
 		return fmt.Sprint(v)
+	})
+	// cssplit <hex> <k>: one buffer, Checksum(b[:k]), then Checksum(b[k:]), then Checksum(b) — the pieces are views of
+	// the same array, in that order (the property's split clause on the implementation, not only on the model)
+	r.Register("cssplit", func(a []string) string {
+		in := lib.UnHex(a[0])
+		k, _ := strconv.Atoi(a[1])
+		if k > len(in) {
+			k = len(in)
+		}
+		buf := append(make([]byte, 0, len(in)+8), in...)
+		c1 := packet.Checksum(buf[:k])
+		c2 := packet.Checksum(buf[k:])
+		cw := packet.Checksum(buf)
+		return fmt.Sprintf("%d %d %d", c1, c2, cw)
 	})
 	// ip4calc <hex20>: IP4.CalculateChecksum
 	r.Register("ip4calc", func(a []string) string {
@@ -265,6 +296,33 @@ func main() {
 			}
 			cs(b, "random-len0..1522")
 		}
+	}
+
+	// splits: every split point of short strings, random split points of longer ones, odd and even on both sides
+	nsplit := 400
+	if r.Thorough() {
+		nsplit = 20000
+	}
+	for i := 0; i < nsplit; i++ {
+		n := rng.Pick(1, 2, 3, 4, 5, 7, 8, 19, 20, 21, 40, 63, 64, 65, 1+rng.Intn(300), 1400+rng.Intn(123))
+		b := rng.Bytes(n)
+		if rng.Chance(30) {
+			for j := range b {
+				if rng.Chance(80) {
+					b[j] = 0xff
+				}
+			}
+		}
+		if n <= 8 {
+			for k := 0; k <= n; k++ {
+				r.Do("cssplit", lib.Hex(b), strconv.Itoa(k))
+			}
+		} else {
+			for j := 0; j < 3; j++ {
+				r.Do("cssplit", lib.Hex(b), strconv.Itoa(rng.Intn(n+1)))
+			}
+		}
+		r.Stat("class.split", 1)
 	}
 
 	// IPv4 headers: CalculateChecksum on arbitrary 20-byte headers
